@@ -617,6 +617,7 @@ func (s *Sys) Apply(op Op, live bool) (obs string) {
 			// requests must be answered); C01 reports it as a crash in its own check.
 			s.violate("C09", "panic-on-repeat", fmt.Sprintf("handler panicked (%s) on message %s", pan, hex.EncodeToString(wire)))
 			s.violate("C08", "panic", fmt.Sprintf("handler panicked (%s)", pan))
+			s.violate("C19", "prefix/panic", fmt.Sprintf("the prefix handler of an accepted configuration panicked (%s) on message %s after a history of %d messages", pan, hex.EncodeToString(wire), len(s.hist)-1))
 			s.violate("C01", "history/prefix/panic", fmt.Sprintf("the prefix handler panicked (%s) on message %s: in the server this kills the process", pan, hex.EncodeToString(wire)))
 		}
 		class += "/panic"
@@ -1066,9 +1067,13 @@ func replayCase(r *ev.Run, id string, raw json.RawMessage) {
 
 // Crash explores the same graphs for property id (C01): only crashes (panic, mutex left held,
 // non-termination through the operation watchdog) are verdicts; the search is cut at budget.
-func Crash(r *ev.Run, id string, budget time.Duration) {
+func Crash(r *ev.Run, id string, budget time.Duration, small bool) {
 	dl := time.Now().Add(budget)
-	for _, p := range pools(false) {
+	ps := pools(false)
+	if small {
+		ps = ps[1:] // the 2-block pool only
+	}
+	for _, p := range ps {
 		p := p
 		res := explore.Explore(r, explore.Config[Op]{
 			Name:      fmt.Sprintf("prefix %s->/%d", p.CIDR, p.Page),
